@@ -57,6 +57,16 @@ pub fn run() {
                 }
                 None => "none".to_string(),
             },
+            // consts: the named constructor functions of `Color` and what they return
+            ["consts"] => {
+                let v: Vec<(&str, Color)> = vec![
+                    ("black", Color::black()), ("white", Color::white()), ("red", Color::red()), ("green", Color::green()),
+                    ("blue", Color::blue()), ("yellow", Color::yellow()), ("fuchsia", Color::fuchsia()), ("aqua", Color::aqua()),
+                    ("lime", Color::lime()), ("maroon", Color::maroon()), ("olive", Color::olive()), ("navy", Color::navy()),
+                    ("purple", Color::purple()), ("teal", Color::teal()), ("silver", Color::silver()), ("gray", Color::gray()),
+                ];
+                format!("ok {}", v.iter().map(|(n, c)| format!("{}={}:{}", n, c.to_rgb_hex_string(false), c.to_rgba().alpha)).collect::<Vec<_>>().join(","))
+            }
             // c01gen <n> <seed>: n strings from the C01 generators (valid notations, edited ones, noise)
             ["c01gen", n, seed] => {
                 let v = crate::props::c01::sample_strings(n.parse().unwrap_or(0), seed.parse().unwrap_or(1));
